@@ -233,7 +233,9 @@ def run_export(eng, p):
     bits = [eng.bool("f%d" % i) for i in range(N)]
     omap = [eng.int("omap%d" % i) for i in range(N)]
     for v in omap:
-        eng.assume((v >= 0) & (v < 20))
+        # the origin of an upstream mapped basin may be much larger than the
+        # exported dataset
+        eng.assume((v >= 0) & (v < 70000))
 
     class BasinStub:
         def __init__(self, name, mapped):
@@ -641,6 +643,50 @@ def replay(case, params, v):
                         if not np.allclose(got, np.linspace(50, 60, 3)[sel]):
                             fails.append("basin feature after filtered "
                                          "export: %r" % got.tolist())
+                if not fails and any(bits) and p["basins"] == "both" \
+                        and p["filtered"]:
+                    # an upstream MAPPED basin (origin larger than the
+                    # dataset): the exported map is the composition
+                    import h5py
+                    import json as _json
+                    om = [int(vals.get("omap%d" % i, 0)) for i in range(3)]
+                    pa = os.path.join(td, "a.rtdc")
+                    pb = os.path.join(td, "b.rtdc")
+                    pc = os.path.join(td, "c.rtdc")
+                    with Wm.RTDCWriter(pa, mode="reset") as hw:
+                        hw.store_feature("area_um",
+                                         np.arange(max(om) + 1, dtype=float))
+                        hw.store_metadata({"experiment":
+                                           {"run identifier": "rid"}})
+                    with Wm.RTDCWriter(pb, mode="reset") as hw:
+                        hw.store_feature("deform", np.linspace(.1, .2, 3))
+                        hw.store_metadata({"experiment":
+                                           {"run identifier": "rid"}})
+                        hw.store_basin("up", "file", "hdf5", [pa],
+                                       basin_map=np.array(om,
+                                                          dtype=np.uint64),
+                                       verify=False)
+                    with dclab.new_dataset(pb) as ds:
+                        ds.filter.manual[:] = bits
+                        ds.apply_filter()
+                        ds.export.hdf5(pc, features=["deform"],
+                                       filtered=True, basins=True)
+                    sel = [i for i in range(3) if bits[i]]
+                    with h5py.File(pc, "r") as h:
+                        for key in h["basins"]:
+                            d = _json.loads("\n".join(
+                                x.decode() if isinstance(x, bytes) else x
+                                for x in h["basins"][key][:]))
+                            if d["name"] != "up":
+                                continue
+                            m = h["events"][d["mapping"]][:].tolist() \
+                                if d["mapping"] != "same" else None
+                            if m != [om[i] for i in sel]:
+                                fails.append(
+                                    "filtered export (selection %r) of a "
+                                    "dataset with an upstream basin mapped "
+                                    "by %r stores the map %r, expected %r" %
+                                    (sel, om, m, [om[i] for i in sel]))
                 key = "Export.hdf5|basins|" + (
                     "empty-selection-raises" if fails and "raised" in
                     fails[0] else "wrong-map")
